@@ -553,6 +553,49 @@ PROPS["C07"]["assumptions"] = PROPS["C07"]["assumptions"] + [
     "shim/fwd_fixpoint.rs: edge_endpoints, edge/node weight lookup, retain_edges, kosaraju_scc (partition of the node indices), flatten; R9 substitutions of the unit headers",
 ]
 
+# ---- C20 (unit formatstr, round 3) --------------------------------------------------------------------------------
+TWINS["formatstr"] = [("parse_format_string_parameters", "c20.parse"), ("Datatype::from", "c20.parse"), ("get_size_from_data_type", "c20.parse")]
+PROPS["C20"] = {
+    "units": ["formatstr"],
+    "level_text": (
+        "utils::arguments::parse_format_string_parameters, Datatype::from(String) and DatatypeProperties::get_size_from_data_type are extracted verbatim from "
+        "/repo on each run and verified by Verus for every format string and every DatatypeProperties, RELATIVE TO A TRUSTED MODEL of the one regular expression "
+        "(the regex engine cannot be executed or reasoned about by the verifier): the match sequence of the regex is the spec function fs_captures, written from "
+        "the regex literal. Against that model the property is proved as stated: for every sequence of grammar items (literal text without '%', the escape '%%', "
+        "conversions with an optional flag from + - # 0, ASCII-digit width, '.' plus optional digits as precision, and the 45 conversion / length forms) the "
+        "rendered string yields, in order, exactly one (type, size) entry per conversion with the documented type (c / C promoted to the integer size; d i u o p x "
+        "X hi hd hu Integer; s S n Pointer; the float forms Double) and is rejected (Err) exactly when some conversion is a long / long long / long double form "
+        "(lemma_fs_groups_of_render covers literal text ending in a digit, 'l' / 'h' / 'L' or '.', a bare '.', '%%' directly before a conversion letter). The 50-literal "
+        "match of Datatype::from is verified verbatim and its panic arm is proved unreachable for every specifier the model can produce from ANY string."),
+    "level_note": (
+        "On the pinned tree the property was violated: '%%x' yielded one Integer parameter (the escape's second % and the letter matched the regex); repaired "
+        "(fix: 85876a6, known_findings.txt). The regex MODEL is an assumption about the regex crate, kept honest in two ways: the R9 pattern that replaces the "
+        "regex head contains the regex LITERAL, so any edit of the regex leaves the run undecided and the bounded twins decide (c20.parse generates strings from the "
+        "grammar and never re-parses them; on the pre-fix tree it reports '%%x'); the twin c20.regex_model compares an executable copy of fs_captures with the "
+        "real regex crate on all 39 million strings of length <= 7 over a 12-character alphabet plus random longer ones (thorough tier). Modelled semantics: "
+        "leftmost-first, non-overlapping matches, greedy = backtracking for this expression, \\d = Unicode Nd. Not covered: the callers (get_variable_parameters, "
+        "get_input_format_string), format strings outside the grammar (observations: '%lx' / '%hhd' / '%zu' are silently skipped, not rejected; '%5%d' yields a "
+        "parameter; '%p' is typed Integer as the property's table says). Trusted also: str extensionality axiom, Clone for Datatype restated, R4 / R2, the flag-loop "
+        "substitution for any()."),
+    "design_ref": "DESIGN.md section 13 (C20)",
+    "default_twins": ["c20.parse"],
+    "sweep_twins": ["c20.parse", "c20.regex_model"],
+    "not_covered": [
+        "the regex crate itself (model cross-checked by the bounded twin c20.regex_model only)",
+        "callers: get_variable_parameters, get_input_format_string, calculate_parameter_locations",
+        "format strings outside the grammar (other length modifiers, several flags, '*', positional arguments, non-ASCII digits)",
+        "error payload",
+    ],
+    "assumptions": [
+        "verif_fs_regex_captures == fs_captures (leftmost-first, non-overlapping, greedy == backtracking for this expression, \\d = Unicode Nd, Regex::new succeeds)",
+        "axiom_fs_str_ext (a str is determined by its characters); axiom_fs_unicode_nd_not_ascii",
+        "Clone for Datatype restated; fs_panic requires false (the panic arm is an obligation)",
+        "R9 substitutions a / b / c of contracts/formatstr.vc (regex head incl. the literal -> shim call + loop with the closure body verbatim; any() -> flag loop; panic!)",
+        "R4 (error payload dropped), R2; shim/prelude.rs, shim/bytesize.rs",
+        "64-bit target (usize = u64)",
+    ],
+}
+
 
 def twin_for(unit, label):
     for frag, twin in TWINS.get(unit, []):
